@@ -237,6 +237,24 @@ pub fn gen_inst(rng: &mut Rng) -> LinInst {
     inst
 }
 
+/// ~400 variables x 25 dense constraints with coefficients that print long: a compressed file of 100 KB and more
+pub fn gen_big_inst(rng: &mut Rng) -> LinInst {
+    let nv = 380 + rng.usize(40);
+    let vars: Vec<Var> = (0..nv as u64).map(|i| Var { id: i * 3 + 1, kind: *rng.pick(&[Kind::Cont, Kind::Int, Kind::Bin]), bound: if rng.chance(1, 2) { None } else { Some((F(0.0), F(1.0))) } }).collect();
+    let lin = |rng: &mut Rng| {
+        let mut terms = vec![];
+        for v in &vars {
+            if rng.chance(9, 10) {
+                terms.push((v.id, F((1 + rng.below(100_000)) as f64 / 7.0)));
+            }
+        }
+        Lin { terms, constant: F(rng.half(4, false)), carrier: 0 }
+    };
+    let objective = lin(rng);
+    let cons = (0..25u64).map(|k| Con { id: k * 2, eq: rng.chance(1, 2), lin: lin(rng), as_constant: false }).collect();
+    LinInst { vars, objective, cons, maximize: rng.chance(1, 2), nonlinear: None }
+}
+
 pub fn gen_write_fault(rng: &mut Rng) -> Fault {
     let (at, act) = match rng.below(10) {
         0..=4 => {
@@ -292,7 +310,13 @@ impl Prop for C18 {
         }
     }
     fn gen(&self, rng: &mut Rng, _tier: Tier, _idx: u64) -> Case {
-        let inst = gen_inst(rng);
+        let mut inst = gen_inst(rng);
+        // now and then an instance whose compressed file outgrows flate2's 32 KiB output buffer, so that the
+        // encoder writes to the disk while the text is still being produced (not only in finish())
+        let big = rng.chance(1, 150);
+        if big {
+            inst = gen_big_inst(rng);
+        }
         let mut faults = vec![];
         let mode = rng.below(20);
         if (8..13).contains(&mode) || mode >= 18 {
@@ -307,7 +331,21 @@ impl Prop for C18 {
                 faults.push(gen_read_fault(rng, 1, FILE, 400));
             }
         }
-        let (chunk_r, chunk_w) = if mode < 4 { (Chunk::Whole, Chunk::Whole) } else { (gen_chunk(rng), gen_chunk(rng)) };
+        let (mut chunk_r, mut chunk_w) = if mode < 4 { (Chunk::Whole, Chunk::Whole) } else { (gen_chunk(rng), gen_chunk(rng)) };
+        if big {
+            // positions scaled to the size of the file (about 100-200 KB); no byte-wise chunking of big files
+            for f in &mut faults {
+                if let At::Byte(k) = f.at {
+                    f.at = At::Byte(k * 400);
+                }
+            }
+            if !matches!(chunk_r, Chunk::Whole) {
+                chunk_r = Chunk::Rand { max: 8192, seed: rng.next() };
+            }
+            if !matches!(chunk_w, Chunk::Whole) {
+                chunk_w = Chunk::Rand { max: 8192, seed: rng.next() };
+            }
+        }
         Case { inst, hash_seed: rng.next(), faults, chunk_r, chunk_w }
     }
     fn enum_plan(&self, tier: Tier, seed: u64) -> Vec<(u64, u64)> {
@@ -388,6 +426,9 @@ impl Prop for C18 {
             x.count(if w_hard { "probe.write_ack_after_hard_fault" } else { "probe.write_ack_with_unfired_or_transient_fault" });
         }
         x.add("probe.bytes_written", written);
+        if written > 32768 {
+            x.count("probe.file_larger_than_flate2_buffer");
+        }
 
         // op 2: acknowledged => complete: a fault-free read of the file now on the disk must give the problem back
         x.begin_op(2);
@@ -462,6 +503,21 @@ impl Prop for C18 {
 
     fn shrink(&self, c: &Case) -> Vec<Case> {
         let mut out = vec![];
+        if c.inst.vars.len() > 20 {
+            // a big instance: halve it first
+            let keep: std::collections::BTreeSet<u64> = c.inst.vars.iter().take(c.inst.vars.len() / 2).map(|v| v.id).collect();
+            let mut n = c.clone();
+            n.inst.vars.retain(|v| keep.contains(&v.id));
+            n.inst.objective.terms.retain(|t| keep.contains(&t.0));
+            for k in &mut n.inst.cons {
+                k.lin.terms.retain(|t| keep.contains(&t.0));
+            }
+            out.push(n);
+            let mut n = c.clone();
+            n.inst.cons.truncate(c.inst.cons.len() / 2);
+            out.push(n);
+            return out;
+        }
         for f in remove_each(&c.faults) {
             out.push(Case { faults: f, ..c.clone() });
         }
@@ -560,6 +616,6 @@ impl Prop for C18 {
         vec!["libc read/write/open/close/getrandom/clock_gettime entry points (simulated: fault plan applied, then the real system call)"]
     }
     fn required_probes(&self, _t: Tier) -> Vec<&'static str> {
-        vec!["fault.enospc", "fault.eio_read", "fault.eintr_read", "fault.short_read", "fault.short_write", "fault.open_fail", "probe.nonlinear_refusal_case", "probe.write_err_after_hard_fault", "probe.read_err_after_hard_fault", "sys.write", "sys.read", "sys.getrandom"]
+        vec!["fault.enospc", "fault.eio_read", "fault.eintr_read", "fault.short_read", "fault.short_write", "fault.open_fail", "probe.nonlinear_refusal_case", "probe.write_err_after_hard_fault", "probe.read_err_after_hard_fault", "probe.file_larger_than_flate2_buffer", "sys.write", "sys.read", "sys.getrandom"]
     }
 }
